@@ -12,8 +12,15 @@
 //              (asString()), which tests of the 12-test probe registry the filters select
 //   > run      a CommandLineTestRunner over the probe registry with recording outputs: outputs created,
 //              help/usage printed, registry calls, tests run (in order), return value.  Skipped when the
-//              repeat count is above 3.
-// Environment lines (inputs of the model): `time`, `plugin <hexarg> <ret>`.
+//              repeat count is above 3 (also for a rejected vector: a broken runner would repeat for ever).
+//   > plugins  (emitted first) every argument that starts with "-p" and is longer than "-p" is handed to the head of
+//              the plugin chain (TestPlugin::parseAllArguments): which recording plugins were asked, the answer
+//   > runall   the static CommandLineTestRunner::RunAllTests(ac, av) on the same registry (real outputs; console
+//              captured through PlatformSpecificFPuts, files stubbed): plugins installed/removed around the run,
+//              help/usage, tests run, return value.  Skipped like `run`.
+// Plugin chain (head first): RecA("-pacc…"), SetPointerPlugin, RecB("-pb…"), MemoryLeakWarningPlugin,
+// MockSupportPlugin, MemoryReporterPlugin, RecC("-pc…").
+// Environment lines (inputs of the model): `time`, `plugin <chain index> <hexarg> <ret>`.
 #include "common.h"
 #include <fcntl.h>
 #include "CppUTest/TestHarness.h"
@@ -25,6 +32,8 @@
 #include "CppUTest/TestFilter.h"
 #include "CppUTest/MemoryLeakWarningPlugin.h"
 #include "CppUTest/PlatformSpecificFunctions.h"
+#include "CppUTestExt/MockSupportPlugin.h"
+#include "CppUTestExt/MemoryReporterPlugin.h"
 
 #undef new
 
@@ -33,17 +42,41 @@ namespace {
 unsigned long g_time = 123456;
 unsigned long fake_time() { return g_time; }
 
-// the plugin chain's answer is a function of the argument it is asked about
+// a recording plugin: its answer is a function of the argument it is asked about
+std::vector<int> g_asked;
 struct RecPlugin : public TestPlugin {
-    bool quiet;
-    RecPlugin() : TestPlugin("RecPlugin"), quiet(false) {}
+    int idx; std::string accepts; bool quiet;
+    RecPlugin(int i, const char* name, const char* prefix) : TestPlugin(name), idx(i), accepts(prefix), quiet(false) {}
     bool parseArguments(int ac, const char* const* av, int index) CPPUTEST_OVERRIDE {
         std::string a = (index >= 0 && index < ac) ? av[index] : "";
-        bool ret = a.compare(0, 5, "-pacc") == 0;
-        if (!quiet) vh::emit("plugin %s %d", vh::hex(a).c_str(), ret ? 1 : 0);
+        bool ret = a.compare(0, accepts.size(), accepts) == 0;
+        g_asked.push_back(idx);
+        if (!quiet) vh::emit("plugin %d %s %d", idx, vh::hex(a).c_str(), ret ? 1 : 0);
         return ret;
     }
 };
+
+// the chain of the harness: three recording plugins around the real ones
+struct Chain {
+    RecPlugin a, b, c;
+    SetPointerPlugin setPointer;
+    MemoryLeakWarningPlugin memLeak;
+    MockSupportPlugin mock;
+    MemoryReporterPlugin memReport;
+    Chain() : a(0, "RecA", "-pacc"), b(2, "RecB", "-pb"), c(6, "RecC", "-pc"), setPointer("HarnessSetPointer"),
+              memLeak("HarnessMemLeak"), mock("HarnessMock") {}
+    void quiet(bool q) { a.quiet = b.quiet = c.quiet = q; }
+    void installInto(TestRegistry& r) {      // installPlugin prepends: last installed = head
+        r.installPlugin(&c); r.installPlugin(&memReport); r.installPlugin(&mock); r.installPlugin(&memLeak);
+        r.installPlugin(&b); r.installPlugin(&setPointer); r.installPlugin(&a);
+    }
+};
+
+std::string g_put;
+void cap_flush() {}
+PlatformSpecificFile stub_fopen(const char*, const char*) { return (PlatformSpecificFile) &g_put; }
+void stub_fputs(const char* str, PlatformSpecificFile f) { if (f == PlatformSpecificStdOut) g_put += str; }   // files: dropped
+void stub_fclose(PlatformSpecificFile) {}
 
 struct Probe { const char* group; const char* name; bool ignored; };
 const Probe PROBES[12] = {
@@ -73,7 +106,17 @@ struct ProbeIgnoredShell : public IgnoredUtestShell {
 
 std::vector<std::string> g_calls;
 
+bool g_logPlugins = false;
+
 struct RecRegistry : public TestRegistry {
+    void installPlugin(TestPlugin* p) CPPUTEST_OVERRIDE {
+        if (g_logPlugins) g_calls.push_back(std::string("install:") + p->getName().asCharString());
+        TestRegistry::installPlugin(p);
+    }
+    void removePluginByName(const SimpleString& name) CPPUTEST_OVERRIDE {
+        if (g_logPlugins) g_calls.push_back(std::string("remove:") + name.asCharString());
+        TestRegistry::removePluginByName(name);
+    }
     void runAllTests(TestResult& r) CPPUTEST_OVERRIDE { g_calls.push_back("runAllTests"); TestRegistry::runAllTests(r); }
     void shuffleTests(size_t seed) CPPUTEST_OVERRIDE {
         char b[64]; snprintf(b, sizeof b, "shuffleTests:%lu", (unsigned long) seed); g_calls.push_back(b);
@@ -148,14 +191,30 @@ void run_case(const vh::Case& c) {
     }
     int ac = (int) av.size();
 
+    Chain chain;
+    TestRegistry chainHolder;
+    chain.installInto(chainHolder);
+    TestPlugin* head = chainHolder.getFirstPlugin();
+
+    // ---- stage 0: the plugin chain on every -p<x> argument
+    vh::emit("> plugins");
+    for (int i = 1; i < ac; i++) {
+        if (strncmp(av[i], "-p", 2) != 0 || av[i][2] == 0) continue;
+        g_asked.clear();
+        bool ret = head->parseAllArguments(ac, av.data(), i);
+        std::string asked;
+        for (size_t k = 0; k < g_asked.size(); k++) { char b[8]; snprintf(b, sizeof b, "%s%d", k ? "," : "", g_asked[k]); asked += b; }
+        vh::emit("chain %s asked=%s ret=%d", vh::hex(std::string(av[i])).c_str(), asked.empty() ? "-" : asked.c_str(), ret ? 1 : 0);
+    }
+    chain.quiet(true);
+
     // ---- stage 1: the parser
     vh::emit("> parse");
     vh::emit("time %lu", g_time);
-    RecPlugin plugin;
     size_t repeat = 0; bool ok = false;
     {
         CommandLineArguments a(ac, av.data());
-        ok = a.parse(&plugin);
+        ok = a.parse(head);
         vh::emit("result %s", ok ? "ok" : "reject");
         vh::emit("needHelp %d", (int) a.needHelp());
         vh::emit("verbose %d", (int) a.isVerbose());
@@ -187,7 +246,7 @@ void run_case(const vh::Case& c) {
 
     // ---- stage 2: the runner applies the configuration
     vh::emit("> run");
-    if (ok && repeat > 3) { vh::emit("skipped"); }
+    if (repeat > 3) { vh::emit("skipped"); }
     else {
         if (pipe(g_pipe) != 0) _exit(3);
         fcntl(g_pipe[0], F_SETFL, O_NONBLOCK);
@@ -196,8 +255,8 @@ void run_case(const vh::Case& c) {
         for (int i = 0; i < 12; i++)
             shells.push_back(PROBES[i].ignored ? (UtestShell*) new ProbeIgnoredShell(i) : (UtestShell*) new ProbeShell(i));
         for (int i = 11; i >= 0; i--) registry.addTest(shells[(size_t) i]);    // addTest prepends: order 0..11
-        plugin.quiet = true;
-        registry.installPlugin(&plugin);
+        chain.installInto(registry);
+        g_logPlugins = true;
         int rc;
         int verbosity = -1, colored = -1;
         {
@@ -205,6 +264,7 @@ void run_case(const vh::Case& c) {
             rc = runner.runAllTestsMain();
             if (g_lastConsole) { verbosity = g_lastConsole->verbosity(); colored = g_lastConsole->colored() ? 1 : 0; }
         }
+        g_logPlugins = false;
         vh::emit("rc %d", rc);
         std::string outs;
         for (size_t i = 0; i < g_outputs.size(); i++) outs += (i ? "," : "") + g_outputs[i];
@@ -229,6 +289,51 @@ void run_case(const vh::Case& c) {
                  (int) UtestShell::isRethrowingExceptions());
         UtestShell::restoreDefaultTestTerminator();
         UtestShell::setRethrowExceptions(true);
+        for (size_t i = 0; i < shells.size(); i++) delete shells[i];
+        close(g_pipe[0]); close(g_pipe[1]);
+    }
+
+    // ---- stage 3: the static entry point CommandLineTestRunner::RunAllTests(ac, av)
+    vh::emit("> runall");
+    if (repeat > 3) { vh::emit("skipped"); }
+    else {
+        g_calls.clear(); g_put.clear();
+        if (pipe(g_pipe) != 0) _exit(3);
+        fcntl(g_pipe[0], F_SETFL, O_NONBLOCK);
+        RecRegistry registry;
+        std::vector<UtestShell*> shells;
+        for (int i = 0; i < 12; i++)
+            shells.push_back(PROBES[i].ignored ? (UtestShell*) new ProbeIgnoredShell(i) : (UtestShell*) new ProbeShell(i));
+        for (int i = 11; i >= 0; i--) registry.addTest(shells[(size_t) i]);
+        chain.installInto(registry);
+        int before = registry.countPlugins();
+        registry.setCurrentRegistry(&registry);
+        void (*oldFlush)(void) = PlatformSpecificFlush;
+        void (*oldFPuts)(const char*, PlatformSpecificFile) = PlatformSpecificFPuts;
+        PlatformSpecificFlush = cap_flush;
+        PlatformSpecificFOpen = stub_fopen; PlatformSpecificFPuts = stub_fputs; PlatformSpecificFClose = stub_fclose;
+        g_logPlugins = true;
+        int rc = CommandLineTestRunner::RunAllTests(ac, av.data());
+        g_logPlugins = false;
+        PlatformSpecificFPuts = oldFPuts; PlatformSpecificFlush = oldFlush;
+        registry.setCurrentRegistry(0);
+        vh::emit("rc %d", rc);
+        CommandLineArguments texts(0, 0);
+        vh::emit("printed %s", g_put == texts.help() ? "help" : g_put == texts.usage() ? "usage" : "other");
+        std::string calls;
+        for (size_t i = 0; i < g_calls.size(); i++) calls += (i ? "," : "") + g_calls[i];
+        vh::emit("calls %s", calls.empty() ? "-" : calls.c_str());
+        std::vector<int> ran;
+        unsigned char buf[256]; ssize_t n;
+        while ((n = read(g_pipe[0], buf, sizeof buf)) > 0) for (ssize_t i = 0; i < n; i++) ran.push_back(buf[i]);
+        bool shuffled = false;
+        for (size_t i = 0; i < g_calls.size(); i++) if (g_calls[i].compare(0, 12, "shuffleTests") == 0) shuffled = true;
+        if (shuffled) std::sort(ran.begin(), ran.end());
+        std::string rs;
+        for (size_t i = 0; i < ran.size(); i++) { char b[8]; snprintf(b, sizeof b, "%s%d", i ? "," : "", ran[i]); rs += b; }
+        vh::emit("ran %s %s", shuffled ? "sorted" : "inorder", rs.empty() ? "-" : rs.c_str());
+        vh::emit("registry plugins before=%d after=%d memleak=%d setpointer=%d", before, registry.countPlugins(),
+                 registry.getPluginByName(DEF_PLUGIN_MEM_LEAK) ? 1 : 0, registry.getPluginByName(DEF_PLUGIN_SET_POINTER) ? 1 : 0);
         for (size_t i = 0; i < shells.size(); i++) delete shells[i];
     }
     for (size_t i = 0; i < av.size(); i++) free(av[i]);
